@@ -15,10 +15,15 @@ empty files, any NUL-free UTF-8 name whose length is below 4096):
 * `iterate_lengths`, `iterate_lengths_large` — every yielded content has the recorded size;
   `read_length`, `iterate_lengths_any` — for ANY archive a yielded content has the size the reader took
   for its entry (a stream ending inside an entry is an error).
-* `pairing_by_position_partial` — the iterator pairs by POSITION; that is pairing by path exactly when
-  the archive names the header's files in header order.  `builder_pairing` shows the library's own
-  archives satisfy this.  The full-strength statement of the property (see the comment there) is FALSE
-  for foreign archives: `foreign_archive_witness`, `foreign_reordered_witness`.
+* `pairing_by_name` (full strength since `fix: 3cfa908`) — for EVERY archive and EVERY header file list with
+  pairwise distinct paths: every `ok` item carries the index of exactly the header file its own archive
+  entry designates (by path for newc / crc entries, by the carried index for stripped ones), whatever the
+  order of the archive and whichever files it omits; `pairing_first_match` drops the distinctness
+  hypothesis (first file of that path); `unknown_entry_is_error`: an entry designating no header file is an
+  error item, never an `ok` one.  `foreign_archive_pairing`: written archives in ANY order / with ANY files
+  left out come back entry by entry under the right index.  `builder_pairing`: the library's own archives.
+* `old_position_pairing_*` — the iterator before the fix (`iterateEOld`, pairing by POSITION) kept as proved
+  negative witnesses: an archive omitting a `%ghost` file, a reordered archive.
 -/
 namespace RpmVerif.C07
 open RpmVerif.Cpio RpmVerif.Gen
@@ -59,98 +64,122 @@ theorem entry_roundtrip_stripped (sizes : List Nat) {idx : Nat} (hi : idx < 4294
 
 /-! ## whole archives -/
 
-/-- **cpio_roundtrip** — iterating a standard archive of ANY list of admissible entries yields exactly
-the written contents, in order, each with the metadata (name, mode, ino, size …) it was written with;
-the iterator makes one step per header file entry (`sizes.length`), so with as many header entries as
-archive entries everything is returned.  Bytes after the trailer are never touched. -/
-theorem cpio_roundtrip (es : List (EntryMeta × Bytes)) (hes : ∀ x ∈ es, EntryOK x) (sizes : List Nat) (rest : Bytes) :
-    iterateE sizes sizes.length (archiveOf es ++ rest)
-        = ((es.take sizes.length).map fun x => .ok (.cpio (entryOf x.1 x.2.length none), x.2))
-    ∧ iterate (archiveOf es ++ rest) sizes = ((es.take sizes.length).map fun x => .ok x.2) := by
-  have h := iterateE_archiveOf sizes es hes rest sizes.length
+/-- **cpio_roundtrip** — iterating a standard archive of ANY list of admissible entries with pairwise
+distinct paths (the header listing exactly these paths, in this order) yields exactly the written
+contents, in order, each with the metadata (name, mode, ino, size …) it was written with and under its own
+index; the iterator makes one step per header file entry (`sizes.length`), so with as many header entries
+as archive entries everything is returned.  Bytes after the trailer are never touched. -/
+theorem cpio_roundtrip (es : List (EntryMeta × Bytes)) (hes : ∀ x ∈ es, EntryOK x) (hnd : (pathsOf es).Nodup)
+    (sizes : List Nat) (rest : Bytes) :
+    iterateE (pathsOf es) sizes sizes.length (archiveOf es ++ rest)
+        = ((es.take sizes.length).zipIdx.map fun x => .ok (x.2, readOf x.1, x.1.2))
+    ∧ iterate (archiveOf es ++ rest) (pathsOf es) sizes = ((es.take sizes.length).zipIdx.map fun x => .ok (x.2, x.1.2)) := by
+  have h := iterateE_archiveOf (pathsOf es) sizes es hes rest sizes.length
+  rw [expectItems_known _ _ (fun x hx => List.mem_map.mpr ⟨x, List.mem_of_mem_take hx, rfl⟩)] at h
+  have hk : ∀ n, ((es.take n).map fun x => Out.ok ((pathsOf es).idxOf (namePath x.1.name), readOf x, x.2))
+      = ((es.take n).zipIdx.map fun x => .ok (x.2, readOf x.1, x.1.2)) := by
+    intro n
+    apply List.ext_getElem
+    · simp
+    · intro i h1 h2
+      simp only [List.length_map, List.length_take] at h1
+      simp only [List.getElem_map, List.getElem_zipIdx, Nat.zero_add, List.getElem_take]
+      have := hnd.idxOf_getElem i (by simp; omega)
+      simp only [pathsOf, List.getElem_map] at this
+      rw [this]
+  rw [hk] at h
   refine ⟨h, ?_⟩
   simp only [iterate, iterateFrom, h, List.map_map]
   rfl
 
-/-- with as many header entries as archived files: all contents, in order -/
-theorem cpio_roundtrip_all (es : List (EntryMeta × Bytes)) (hes : ∀ x ∈ es, EntryOK x) (sizes : List Nat)
-    (hl : sizes.length = es.length) (rest : Bytes) :
-    iterate (archiveOf es ++ rest) sizes = es.map fun x => .ok x.2 := by
-  rw [(cpio_roundtrip es hes sizes rest).2, hl, List.take_length]
+/-- with as many header entries as archived files: all contents, in order, each under its own index -/
+theorem cpio_roundtrip_all (es : List (EntryMeta × Bytes)) (hes : ∀ x ∈ es, EntryOK x) (hnd : (pathsOf es).Nodup)
+    (sizes : List Nat) (hl : sizes.length = es.length) (rest : Bytes) :
+    iterate (archiveOf es ++ rest) (pathsOf es) sizes = es.zipIdx.map fun x => .ok (x.2, x.1.2) := by
+  rw [(cpio_roundtrip es hes hnd sizes rest).2, hl, List.take_length]
 
 /-- **cpio_roundtrip_stripped** — the large-file form: entry `i` carries index `i`, its size is the
-header's `sizes[i]`; any contents (no 4 GiB bound), fewer than 2^32 - 1 files. -/
-theorem cpio_roundtrip_stripped (cs : List Bytes) (hn : cs.length ≤ 4294967295) (rest : Bytes) :
-    iterateE (cs.map List.length) cs.length (archiveStripped cs ++ rest)
-        = (cs.zipIdx.map fun x => .ok (.stripped x.2, x.1))
-    ∧ iterate (archiveStripped cs ++ rest) (cs.map List.length) = cs.map .ok := by
-  have h := iterateE_stripped (cs.map List.length) rest cs 0 cs.length (by omega)
+header's `sizes[i]`; any contents (no 4 GiB bound), fewer than 2^32 - 1 files, any header paths. -/
+theorem cpio_roundtrip_stripped (cs : List Bytes) (hn : cs.length ≤ 4294967295) (paths : List Bytes)
+    (hp : paths.length = cs.length) (rest : Bytes) :
+    iterateE paths (cs.map List.length) cs.length (archiveStripped cs ++ rest)
+        = (cs.zipIdx.map fun x => .ok (x.2, .stripped x.2, x.1))
+    ∧ iterate (archiveStripped cs ++ rest) paths (cs.map List.length) = cs.zipIdx.map fun x => .ok (x.2, x.1) := by
+  have h := iterateE_stripped paths (cs.map List.length) rest cs 0 cs.length (by omega) (by omega)
     (fun j hj => by simp [hj])
   rw [List.take_length] at h
   refine ⟨h, ?_⟩
   simp only [iterate, iterateFrom, List.length_map, archiveStripped, h, List.map_map]
-  have : ((Out.map fun x : PayloadEntry × Bytes => x.2) ∘ fun x : Bytes × Nat => Out.ok (PayloadEntry.stripped x.2, x.1))
-      = (fun x : Bytes × Nat => Out.ok x.1) := rfl
-  rw [this]
-  calc List.map (fun x : Bytes × Nat => Out.ok x.1) cs.zipIdx
-      = List.map Out.ok (cs.zipIdx.map Prod.fst) := by rw [List.map_map]; rfl
-    _ = List.map Out.ok cs := by rw [List.zipIdx_map_fst]
+  rfl
 
 /-! ## the builder's archives, through the compressor -/
 
 /-- **files_of_build** — `Package::files()` on a package whose payload is the compressed standard-mode
 archive of `fs` (the builder's sorted file list) and whose header lists these files: every file's exact
-content, in the builder's order.  Holds for every compressor that round-trips. -/
+content under its own metadata (index), in the builder's order.  Holds for every compressor that round-trips. -/
 theorem files_of_build (compress : Bytes → Bytes) (decompress : Bytes → Out Bytes)
     (hcd : ∀ x, decompress (compress x) = .ok x)
     {uid gid : Nat} (hu : uid < 4294967296) (hg : gid < 4294967296)
-    (fs : List FileIn) (hfs : ∀ f ∈ fs, f.OK) (hn : fs.length < 4294967296) :
-    files decompress (compress (builderArchive uid gid fs)) (fs.map (·.content.length))
-      = .ok (fs.map fun f => .ok f.content) := by
+    (fs : List FileIn) (hfs : ∀ f ∈ fs, f.OK) (hn : fs.length < 4294967296) (hnd : (headerPaths fs).Nodup) :
+    files decompress (compress (builderArchive uid gid fs)) (headerPaths fs) (fs.map (·.content.length))
+      = .ok (fs.zipIdx.map fun x => .ok (x.2, x.1.content)) := by
   have hes := builderEntriesFrom_ok hu hg fs hfs 1 (by omega)
+  have hmap := builderEntriesFrom_map uid gid fs 1
   have hlen : (builderEntriesFrom uid gid 1 fs).length = fs.length := by
-    have := congrArg List.length (builderEntriesFrom_map uid gid fs 1)
-    simpa using this
-  have h := cpio_roundtrip_all (builderEntriesFrom uid gid 1 fs) hes (fs.map (·.content.length))
-    (by simp [hlen]) []
+    simpa using congrArg List.length hmap
+  have hp := builder_pathsOf uid gid fs 1
+  have h := cpio_roundtrip_all (builderEntriesFrom uid gid 1 fs) hes (by rw [hp]; exact hnd)
+    (fs.map (·.content.length)) (by simp [hlen]) []
+  rw [hp] at h
   simp only [List.append_nil] at h
-  simp only [files, hcd, Out.bind_ok, Out.pure_eq, builderArchive, h]
-  have := congrArg (List.map fun x : Bytes × Bytes => Out.ok x.2) (builderEntriesFrom_map uid gid fs 1)
-  simpa [List.map_map, Function.comp_def] using this
+  simp only [files, hcd, Out.bind_ok, Out.pure_eq, builderArchive, h, Out.ok.injEq]
+  apply List.ext_getElem
+  · simp [hlen]
+  · intro i h1 h2
+    simp only [List.length_map, List.length_zipIdx] at h1 h2
+    simp only [List.getElem_map, List.getElem_zipIdx, Nat.zero_add, Out.ok.injEq, Prod.mk.injEq, true_and]
+    have := congrArg (fun l => (l[i]?).map Prod.snd) hmap
+    simpa [List.getElem?_eq_getElem h1, List.getElem?_eq_getElem h2] using this
 
 /-- the same in large-file mode (stripped entries) -/
 theorem files_of_build_large (compress : Bytes → Bytes) (decompress : Bytes → Out Bytes)
     (hcd : ∀ x, decompress (compress x) = .ok x) (fs : List FileIn) (hn : fs.length ≤ 4294967295) :
-    files decompress (compress (builderArchiveLarge fs)) (fs.map (·.content.length))
-      = .ok (fs.map fun f => .ok f.content) := by
-  have h := (cpio_roundtrip_stripped (fs.map (·.content)) (by simpa using hn) []).2
+    files decompress (compress (builderArchiveLarge fs)) (headerPaths fs) (fs.map (·.content.length))
+      = .ok (fs.zipIdx.map fun x => .ok (x.2, x.1.content)) := by
+  have h := (cpio_roundtrip_stripped (fs.map (·.content)) (by simpa using hn) (headerPaths fs) (by simp) []).2
   simp only [List.append_nil, List.map_map] at h
-  simp only [files, hcd, Out.bind_ok, Out.pure_eq, builderArchiveLarge]
+  simp only [files, hcd, Out.bind_ok, Out.pure_eq, builderArchiveLarge, Out.ok.injEq]
   rw [show (fs.map fun f => f.content.length) = (fs.map (List.length ∘ fun f => f.content)) from rfl, h]
-  rfl
+  apply List.ext_getElem
+  · simp
+  · intro i h1 h2
+    simp
 
 /-- **iterate_lengths** — every content yielded from a library-made standard archive has exactly the
-size recorded for the file at that position (and it is the `i`-th file's content) -/
+size recorded for the file whose metadata it is paired with (and it is that file's content) -/
 theorem iterate_lengths {uid gid : Nat} (hu : uid < 4294967296) (hg : gid < 4294967296)
-    (fs : List FileIn) (hfs : ∀ f ∈ fs, f.OK) (hn : fs.length < 4294967296)
-    (i : Nat) (c : Bytes) (hi : i < (iterate (builderArchive uid gid fs) (fs.map (·.content.length))).length)
-    (hc : (iterate (builderArchive uid gid fs) (fs.map (·.content.length)))[i] = .ok c) :
-    (fs.map (·.content.length))[i]? = some c.length := by
-  have h := files_of_build id .ok (fun _ => rfl) hu hg fs hfs hn
+    (fs : List FileIn) (hfs : ∀ f ∈ fs, f.OK) (hn : fs.length < 4294967296) (hnd : (headerPaths fs).Nodup)
+    (k i : Nat) (c : Bytes)
+    (hk : k < (iterate (builderArchive uid gid fs) (headerPaths fs) (fs.map (·.content.length))).length)
+    (hc : (iterate (builderArchive uid gid fs) (headerPaths fs) (fs.map (·.content.length)))[k] = .ok (i, c)) :
+    (fs.map (·.content.length))[i]? = some c.length ∧ (fs.map (·.content))[i]? = some c := by
+  have h := files_of_build id .ok (fun _ => rfl) hu hg fs hfs hn hnd
   simp only [files, id, Out.bind_ok, Out.pure_eq, Out.ok.injEq] at h
-  simp only [h, List.getElem_map, Out.ok.injEq] at hc
-  simp only [h, List.length_map] at hi
-  simp [hi, hc]
+  simp only [h, List.getElem_map, List.getElem_zipIdx, Nat.zero_add, Out.ok.injEq, Prod.mk.injEq] at hc
+  simp only [h, List.length_map, List.length_zipIdx] at hk
+  obtain ⟨rfl, rfl⟩ := hc
+  simp [hk]
 
-theorem iterate_lengths_large (fs : List FileIn) (hn : fs.length ≤ 4294967295)
-    (i : Nat) (c : Bytes) (hi : i < (iterate (builderArchiveLarge fs) (fs.map (·.content.length))).length)
-    (hc : (iterate (builderArchiveLarge fs) (fs.map (·.content.length)))[i] = .ok c) :
-    (fs.map (·.content.length))[i]? = some c.length := by
+theorem iterate_lengths_large (fs : List FileIn) (hn : fs.length ≤ 4294967295) (k i : Nat) (c : Bytes)
+    (hk : k < (iterate (builderArchiveLarge fs) (headerPaths fs) (fs.map (·.content.length))).length)
+    (hc : (iterate (builderArchiveLarge fs) (headerPaths fs) (fs.map (·.content.length)))[k] = .ok (i, c)) :
+    (fs.map (·.content.length))[i]? = some c.length ∧ (fs.map (·.content))[i]? = some c := by
   have h := files_of_build_large id .ok (fun _ => rfl) fs hn
   simp only [files, id, Out.bind_ok, Out.pure_eq, Out.ok.injEq] at h
-  simp only [h, List.getElem_map, Out.ok.injEq] at hc
-  simp only [h, List.length_map] at hi
-  simp [hi, hc]
+  simp only [h, List.getElem_map, List.getElem_zipIdx, Nat.zero_add, Out.ok.injEq, Prod.mk.injEq] at hc
+  simp only [h, List.length_map, List.length_zipIdx] at hk
+  obtain ⟨rfl, rfl⟩ := hc
+  simp [hk]
 
 /-- **read_length** (full strength since `fix: c887b00`) — for ANY stream: when reading an entry's data
 succeeds, the content has exactly the announced size and the stream was content ++ padding ++ rest;
@@ -162,100 +191,226 @@ theorem read_length {fileSize : Nat} {r c r' : Bytes} (h : readData fileSize r =
 /-- **iterate_lengths_any** — for ANY archive bytes and ANY header: every yielded content has exactly
 the size the reader took for its entry — the cpio header's `filesize`, or, for a stripped entry, the
 recorded size `sizes[idx]` of the header file the entry names. -/
-theorem iterate_lengths_any (sizes : List Nat) (fuel : Nat) (archive : Bytes) (e : PayloadEntry) (c : Bytes)
-    (h : .ok (e, c) ∈ iterateE sizes fuel archive) : entrySize sizes e = some c.length :=
-  iterateE_sizes sizes fuel archive e c h
+theorem iterate_lengths_any (paths : List Bytes) (sizes : List Nat) (fuel : Nat) (archive : Bytes) (i : Nat)
+    (e : PayloadEntry) (c : Bytes) (h : .ok (i, e, c) ∈ iterateE paths sizes fuel archive) :
+    entrySize sizes e = some c.length :=
+  iterateE_sizes paths sizes fuel archive i e c h
 
 /-! ## pairing -/
 
-/-- a single entry names header file `i` iff its path is the `i`-th header path -/
-theorem entryIndex_eq_iff (paths : List Bytes) (hnd : paths.Nodup) (e : PayloadEntry) (i : Nat) (hi : i < paths.length) :
-    entryIndex paths e = i ↔ entryPath paths e = some paths[i] := by
+/-- header file `i` is the one the archive entry designates: for a newc / crc entry the file whose path
+is the one the entry's name stands for (`"." + path`, or the plain path), for a stripped entry the file
+at the index the entry carries.  Stated on the header's path list alone — independent of `fileIndex`. -/
+def Designates (paths : List Bytes) : PayloadEntry → Nat → Prop
+  | .cpio e, i => paths[i]? = some (namePath e.name)
+  | .stripped idx, i => i = idx ∧ idx < paths.length
+
+/-- `Reader::file_index` is sound and complete for `Designates`: it returns the FIRST designated file,
+and `None` exactly when the entry designates no file -/
+theorem fileIndex_spec (paths : List Bytes) (e : PayloadEntry) :
+    (∀ i, fileIndex paths e = some i → Designates paths e i ∧ ∀ j, Designates paths e j → i ≤ j)
+    ∧ (fileIndex paths e = none ↔ ∀ i, ¬ Designates paths e i) := by
   cases e with
   | cpio ce =>
-    simp only [entryIndex, entryPath, Option.some.injEq]
+    refine ⟨fun i h => ⟨fileIndex_cpio h, fileIndex_cpio_first h⟩, ?_⟩
+    rw [fileIndex_cpio_none]
+    simp only [Designates]
     constructor
-    · intro h
-      have hlt : paths.idxOf ce.name < paths.length := by omega
-      have := List.getElem_idxOf hlt
-      simp only [h] at this
-      exact this.symm
-    · intro h; rw [h]; exact hnd.idxOf_getElem i hi
+    · intro h i hi
+      exact h (List.mem_of_getElem? hi)
+    · intro h hm
+      obtain ⟨i, hi, heq⟩ := List.getElem_of_mem hm
+      exact h i (by rw [List.getElem?_eq_getElem hi, heq])
   | stripped idx =>
-    simp only [entryIndex, entryPath]
-    constructor
-    · intro h; subst h; simp
-    · intro h
-      obtain ⟨hlt, heq⟩ := List.getElem?_eq_some_iff.mp h
-      exact (List.getElem_inj hnd).mp heq
+    refine ⟨fun i h => ?_, ?_⟩
+    · have h1 := fileIndex_stripped h
+      have h2 := fileIndex_lt h
+      subst h1
+      exact ⟨⟨rfl, h2⟩, fun j hj => by rw [hj.1]; exact Nat.le_refl _⟩
+    · rw [fileIndex_stripped_none]
+      simp only [Designates]
+      constructor
+      · intro h i hi; omega
+      · intro h
+        refine Nat.le_of_not_lt (fun hlt => h idx ⟨rfl, hlt⟩)
 
-/-- **pairing_by_position_partial** — `FileIterator` attaches to the `i`-th archive entry the metadata of
-the `i`-th header file.  For header paths without duplicates this is the metadata *of the entry's own
-path* for every yielded entry **iff** the archive lists exactly the header's first paths, in header order.
+/-- with pairwise distinct header paths an entry designates at most one file -/
+theorem designates_unique (paths : List Bytes) (hnd : paths.Nodup) (e : PayloadEntry) (i j : Nat)
+    (hi : Designates paths e i) (hj : Designates paths e j) : i = j := by
+  cases e with
+  | cpio ce =>
+    simp only [Designates] at hi hj
+    obtain ⟨hil, hie⟩ := List.getElem?_eq_some_iff.mp hi
+    obtain ⟨hjl, hje⟩ := List.getElem?_eq_some_iff.mp hj
+    exact (List.getElem_inj hnd).mp (hie.trans hje.symm)
+  | stripped idx => exact hi.1.trans hj.1.symm
 
-Full-strength statement of the property (NOT provable — false, see the two witnesses below):
-`∀ archive, ∀ i, (iterateE sizes n archive)[i] = .ok (e, c) → entryIndex paths e = i`
-("each content is paired with the metadata of the file of that path"). -/
-theorem pairing_by_position_partial (paths : List Bytes) (hnd : paths.Nodup) (es : List PayloadEntry)
-    (hlen : es.length ≤ paths.length) :
-    (∀ i (h : i < es.length), entryIndex paths es[i] = i)
-      ↔ es.map (entryPath paths) = (paths.take es.length).map some := by
+/-- **pairing_by_name** — the property at full strength (after `fix: 3cfa908`).  For EVERY archive (any
+bytes: any order of entries, any files left out, newc, crc or stripped entries, damaged or not), EVERY
+header file list with pairwise distinct paths, and every `ok` item `(i, e, c)` the iterator yields — the
+content `c` read from archive entry `e`, handed out with the metadata of header file `i`:
+* `i` is a file of the header and it is the one entry `e` itself designates (its path is the one the
+  name of `e` stands for; for a stripped entry `i` is the index `e` carries),
+* no other header file is designated by `e`,
+* `c` has exactly the size the reader took for `e` (`iterate_lengths_any`). -/
+theorem pairing_by_name (paths : List Bytes) (hnd : paths.Nodup) (sizes : List Nat) (fuel : Nat) (archive : Bytes)
+    (i : Nat) (e : PayloadEntry) (c : Bytes) (h : .ok (i, e, c) ∈ iterateE paths sizes fuel archive) :
+    i < paths.length ∧ Designates paths e i ∧ (∀ j, Designates paths e j → j = i)
+    ∧ entrySize sizes e = some c.length := by
+  obtain ⟨hfi, hsz⟩ := iterateE_item paths sizes fuel archive i e c h
+  have hd := ((fileIndex_spec paths e).1 i hfi).1
+  exact ⟨fileIndex_lt hfi, hd, fun j hj => designates_unique paths hnd e j i hj hd, hsz⟩
+
+/-- without the distinctness hypothesis: the FIRST header file the entry designates (`position`) -/
+theorem pairing_first_match (paths : List Bytes) (sizes : List Nat) (fuel : Nat) (archive : Bytes)
+    (i : Nat) (e : PayloadEntry) (c : Bytes) (h : .ok (i, e, c) ∈ iterateE paths sizes fuel archive) :
+    i < paths.length ∧ Designates paths e i ∧ ∀ j, Designates paths e j → i ≤ j := by
+  obtain ⟨hfi, _⟩ := iterateE_item paths sizes fuel archive i e c h
+  exact ⟨fileIndex_lt hfi, (fileIndex_spec paths e).1 i hfi⟩
+
+/-- **unknown_entry_is_error** — a (non-trailer) archive entry that designates no file of the header is
+answered with an error item — never with some file's metadata — wherever in the archive it stands
+(`bs` is the stream at that entry). -/
+theorem unknown_entry_is_error (paths : List Bytes) (sizes : List Nat) (fuel : Nat) (bs : Bytes) (e : PayloadEntry)
+    (fs : Nat) (r : Bytes) (hr : readerNew sizes bs = .ok (e, fs, r)) (hnt : isTrailer e = false)
+    (hno : ∀ i, ¬ Designates paths e i) :
+    iterateE paths sizes (fuel + 1) bs = [.err "no-such-file"] := by
+  have := (fileIndex_spec paths e).2.mpr hno
+  simp only [iterateE, hr, hnt, this]
+  simp
+
+/-- conversely every `ok` item comes from an entry that designates a header file -/
+theorem ok_item_designates (paths : List Bytes) (sizes : List Nat) (fuel : Nat) (archive : Bytes)
+    (i : Nat) (e : PayloadEntry) (c : Bytes) (h : .ok (i, e, c) ∈ iterateE paths sizes fuel archive) :
+    ∃ j, Designates paths e j :=
+  ⟨i, (pairing_first_match paths sizes fuel archive i e c h).2.1⟩
+
+/-- **foreign_archive_pairing** — "whatever the order of the archive and whichever files it omits", for
+written archives: `es` is ANY list of admissible entries (any order, repetitions allowed) each naming some
+file of the header `paths` (ANY list; files not named by any entry — `%ghost` files — are simply not
+yielded).  Every entry comes back, in archive order, with its exact content under the index of the
+header file it names.  With an entry that names no header file the items before it are unchanged and
+the iteration ends with an error item. -/
+theorem foreign_archive_pairing (paths : List Bytes) (sizes : List Nat) (es : List (EntryMeta × Bytes))
+    (hes : ∀ x ∈ es, EntryOK x) (rest : Bytes) (fuel : Nat) :
+    ((∀ x ∈ es, namePath x.1.name ∈ paths) →
+      iterateE paths sizes fuel (archiveOf es ++ rest)
+        = (es.take fuel).map fun x => .ok (paths.idxOf (namePath x.1.name), readOf x, x.2))
+    ∧ (∀ known x t, es = known ++ x :: t → known.length < fuel → (∀ y ∈ known, namePath y.1.name ∈ paths) →
+        namePath x.1.name ∉ paths →
+        iterateE paths sizes fuel (archiveOf es ++ rest)
+          = (known.map fun y => .ok (paths.idxOf (namePath y.1.name), readOf y, y.2)) ++ [.err "no-such-file"]) := by
+  have h := iterateE_archiveOf paths sizes es hes rest fuel
   constructor
-  · intro h
-    apply List.ext_getElem
-    · simp; omega
-    · intro i h1 h2
-      simp only [List.length_map] at h1
-      simp only [List.getElem_map, List.getElem_take]
-      exact (entryIndex_eq_iff paths hnd es[i] i (by omega)).mp (h i h1)
-  · intro h i hi
-    have := congrArg (fun l => l[i]?) h
-    simp only [List.getElem?_map, List.getElem?_take, hi, if_true, List.getElem?_eq_getElem hi, Option.map_some,
-      List.getElem?_eq_getElem (show i < paths.length by omega)] at this
-    exact (entryIndex_eq_iff paths hnd es[i] i (by omega)).mpr (Option.some.inj this)
+  · intro hk
+    rw [h, expectItems_known _ _ (fun x hx => hk x (List.mem_of_mem_take hx))]
+  · intro known x t he hlt hk hx
+    obtain ⟨n, rfl⟩ : ∃ n, fuel = known.length + (n + 1) := ⟨fuel - known.length - 1, by omega⟩
+    rw [h, he, List.take_length_add_append, List.take_succ_cons, expectItems_unknown paths known x _ hk hx]
 
-/-- the library's own standard archives name the header's files in header order, so for them pairing by
-position IS pairing by path (`paths` = the BTreeMap keys, which are distinct) -/
+/-- the library's own standard archives: every yielded item carries the index of the file the entry
+names, that index is the entry's position (the builder writes the header's files in header order), and
+the content is that file's (`headerPaths` of the BTreeMap keys are distinct: `headerPaths_nodup`) -/
 theorem builder_pairing {uid gid : Nat} (hu : uid < 4294967296) (hg : gid < 4294967296)
-    (fs : List FileIn) (hfs : ∀ f ∈ fs, f.OK) (hn : fs.length < 4294967296) (hnd : (fs.map (·.path)).Nodup) :
-    ∃ es : List (PayloadEntry × Bytes),
-      iterateE (fs.map (·.content.length)) fs.length (builderArchive uid gid fs) = es.map .ok
-      ∧ es.map (·.2) = fs.map (·.content)
-      ∧ ∀ i (h : i < es.length), entryIndex (fs.map (·.path)) es[i].1 = i := by
+    (fs : List FileIn) (hfs : ∀ f ∈ fs, f.OK) (hn : fs.length < 4294967296) (hnd : (headerPaths fs).Nodup) :
+    ∃ es : List (Nat × PayloadEntry × Bytes),
+      iterateE (headerPaths fs) (fs.map (·.content.length)) fs.length (builderArchive uid gid fs) = es.map .ok
+      ∧ es.map (·.2.2) = fs.map (·.content)
+      ∧ es.map (·.1) = List.range fs.length
+      ∧ ∀ k (h : k < es.length), Designates (headerPaths fs) es[k].2.1 k := by
   have hes := builderEntriesFrom_ok hu hg fs hfs 1 (by omega)
   have hmap := builderEntriesFrom_map uid gid fs 1
   have hlen : (builderEntriesFrom uid gid 1 fs).length = fs.length := by
     simpa using congrArg List.length hmap
-  have h := iterateE_archiveOf (fs.map (·.content.length)) _ hes [] fs.length
-  rw [List.append_nil, ← hlen, List.take_length] at h
-  refine ⟨(builderEntriesFrom uid gid 1 fs).map fun x => (.cpio (entryOf x.1 x.2.length none), x.2), ?_, ?_, ?_⟩
+  have hp := builder_pathsOf uid gid fs 1
+  have h := (cpio_roundtrip (builderEntriesFrom uid gid 1 fs) hes (by rw [hp]; exact hnd)
+    (fs.map (·.content.length)) []).1
+  rw [hp, List.append_nil, List.length_map, ← hlen, List.take_length] at h
+  refine ⟨(builderEntriesFrom uid gid 1 fs).zipIdx.map fun x => (x.2, readOf x.1, x.1.2), ?_, ?_, ?_, ?_⟩
   · rw [← hlen, builderArchive, h, List.map_map]; rfl
-  · have := congrArg (List.map Prod.snd) hmap
-    simpa [List.map_map, Function.comp_def] using this
-  · have hpaths : (builderEntriesFrom uid gid 1 fs).map (fun x => x.1.name) = fs.map (·.path) := by
-      have := congrArg (List.map Prod.fst) hmap
-      simpa [List.map_map, Function.comp_def] using this
-    intro i hi
-    simp only [List.length_map] at hi
-    simp only [List.getElem_map, entryIndex, entryOf]
-    have hi' : i < (fs.map (·.path)).length := by simp; omega
-    have : ((builderEntriesFrom uid gid 1 fs)[i]).1.name = (fs.map (·.path))[i] := by
-      have := congrArg (fun l => l[i]?) hpaths
-      simp only [List.getElem?_map, List.getElem?_eq_getElem hi, Option.map_some,
-        List.getElem?_eq_getElem (show i < fs.length by omega)] at this
-      simpa using Option.some.inj this
-    rw [this]
-    exact hnd.idxOf_getElem i hi'
+  · apply List.ext_getElem
+    · simp [hlen]
+    · intro i h1 h2
+      simp only [List.length_map, List.length_zipIdx] at h1
+      have := congrArg (fun l => (l[i]?).map Prod.snd) hmap
+      simpa [List.getElem?_eq_getElem h1, List.getElem?_eq_getElem (show i < fs.length by omega)] using this
+  · apply List.ext_getElem
+    · simp [hlen]
+    · intro i h1 h2; simp
+  · intro k hk
+    simp only [List.length_map, List.length_zipIdx] at hk
+    simp only [List.getElem_map, List.getElem_zipIdx, Nat.zero_add, Designates, readOf, entryOf]
+    have := congrArg (fun l => l[k]?) hp
+    simp only [pathsOf, List.getElem?_map, List.getElem?_eq_getElem hk, Option.map_some] at this
+    simp only [headerPaths, List.getElem?_map]
+    exact this.symm
 
-/-- every yielded entry is paired with the metadata of its own path (decidable form of the full-strength
-statement, for concrete archives) -/
-def pairedByPath (paths : List Bytes) (ys : List (Out (PayloadEntry × Bytes))) : Bool :=
+/-! ## the iterator before `fix: 3cfa908`: pairing by position (negative witnesses) -/
+
+/-- the pre-fix `FileIterator::next`: the i-th `next()` hands out `file_entries[i]` with whatever the i-th
+archive entry holds (the list position is the metadata index) -/
+def iterateEOld (sizes : List Nat) : Nat → Bytes → List (Out (PayloadEntry × Bytes))
+  | 0, _ => []
+  | fuel + 1, bs =>
+    match readerNew sizes bs with
+    | .ok (e, fileSize, r) =>
+      if isTrailer e then [] else
+      match readData fileSize r with
+      | .ok (content, r') => .ok (e, content) :: iterateEOld sizes fuel r'
+      | .err c => [.err c]
+      | .panic s => [.panic s]
+    | .err c => [.err c]
+    | .panic s => [.panic s]
+
+/-- the `ok` items of an iteration -/
+def okItems {α} (l : List (Out α)) : List α := l.filterMap fun o => match o with | .ok x => some x | _ => none
+
+/-- **same_entries_as_before** — the repair changed which METADATA an item carries, nothing else: the
+(entry, content) pairs the iterator yields are the archive's entries in archive order with the contents
+the pre-fix iterator read for them — all of them, or those before the first entry that designates no
+header file. -/
+theorem same_entries_as_before (paths : List Bytes) (sizes : List Nat) (fuel : Nat) (bs : Bytes) :
+    ∃ n, (okItems (iterateE paths sizes fuel bs)).map (fun x => (x.2.1, x.2.2))
+      = (okItems (iterateEOld sizes fuel bs)).take n := by
+  induction fuel generalizing bs with
+  | zero => exact ⟨0, rfl⟩
+  | succ k ih =>
+    cases hr : readerNew sizes bs with
+    | err c => exact ⟨0, by simp [iterateE, hr, okItems]⟩
+    | panic c => exact ⟨0, by simp [iterateE, hr, okItems]⟩
+    | ok x =>
+      obtain ⟨e, fs, r⟩ := x
+      cases ht : isTrailer e with
+      | true => exact ⟨0, by simp [iterateE, hr, ht, okItems]⟩
+      | false =>
+        cases hf : fileIndex paths e with
+        | none => exact ⟨0, by simp [iterateE, hr, ht, hf, okItems]⟩
+        | some i =>
+          cases hd : readData fs r with
+          | err c => exact ⟨0, by simp [iterateE, hr, ht, hf, hd, okItems]⟩
+          | panic c => exact ⟨0, by simp [iterateE, hr, ht, hf, hd, okItems]⟩
+          | ok y =>
+            obtain ⟨c, r'⟩ := y
+            obtain ⟨n, hn⟩ := ih r'
+            refine ⟨n + 1, ?_⟩
+            simp only [okItems] at hn
+            simp [iterateE, iterateEOld, hr, ht, hf, hd, okItems, hn]
+
+/-- every item of the OLD iterator sits at the position of the file its entry designates (decidable, for
+concrete archives) -/
+def oldPairedByPath (paths : List Bytes) (ys : List (Out (PayloadEntry × Bytes))) : Bool :=
   ys.zipIdx.all fun y => match y.1 with
-    | .ok (e, _) => entryIndex paths e == y.2
+    | .ok (e, _) => fileIndex paths e == some y.2
+    | _ => true
+
+/-- every item of the NEW iterator carries the index of the file its entry designates -/
+def pairedByPath (paths : List Bytes) (ys : List (Out (Nat × PayloadEntry × Bytes))) : Bool :=
+  ys.all fun y => match y with
+    | .ok (i, e, _) => fileIndex paths e == some i
     | _ => true
 
 /-- header of a foreign package: `/a` (1 byte), `/g` (a %ghost file, not archived), `/b` (1 byte) -/
-def wPaths : List Bytes := [[46, 47, 97], [46, 47, 103], [46, 47, 98]]
+def wPaths : List Bytes := [[47, 97], [47, 103], [47, 98]]
 def wSizes : List Nat := [1, 0, 1]
 /-- its archive, as rpm writes it: `./a` = "A", `./b` = "B"; the ghost is omitted -/
 def wArchive : Bytes := archiveOf [({ name := [46, 47, 97], ino := 1, mode := 33188 }, [65]),
@@ -263,24 +418,39 @@ def wArchive : Bytes := archiveOf [({ name := [46, 47, 97], ino := 1, mode := 33
 /-- an archive that lists `./b` before `./a` for the header `/a`, `/b` -/
 def wArchiveReordered : Bytes := archiveOf [({ name := [46, 47, 98], ino := 2, mode := 33188 }, [66]),
                                             ({ name := [46, 47, 97], ino := 1, mode := 33188 }, [65])]
+/-- an archive with an entry `./x` that no header file corresponds to, between `./a` and `./b` -/
+def wArchiveUnknown : Bytes := archiveOf [({ name := [46, 47, 97], ino := 1, mode := 33188 }, [65]),
+                                          ({ name := [46, 47, 120], ino := 9, mode := 33188 }, [88]),
+                                          ({ name := [46, 47, 98], ino := 3, mode := 33188 }, [66])]
 
-/-- **foreign_archive_witness** — an archive that omits a `%ghost` file: the iterator yields "A" and "B",
-and pairs "B" (the content of `/b`, header file 2) with the metadata of header file 1 (`/g`). -/
-theorem foreign_archive_witness :
-    iterate wArchive wSizes = [.ok [65], .ok [66]]
-    ∧ (iterateE wSizes 3 wArchive).map (fun y => y.map fun x => entryIndex wPaths x.1) = [.ok 0, .ok 2]
-    ∧ pairedByPath wPaths (iterateE wSizes 3 wArchive) = false := by
+/-- **old_position_pairing_ghost_witness** — an archive that omits a `%ghost` file: the OLD iterator
+yielded "A" and "B" and paired "B" (the content of `/b`, header file 2) with the metadata of header file 1
+(`/g`); the repaired iterator yields "B" under index 2. -/
+theorem old_position_pairing_ghost_witness :
+    (iterateEOld wSizes 3 wArchive).map (fun y => y.map fun x => (fileIndex wPaths x.1, x.2))
+        = [.ok (some 0, [65]), .ok (some 2, [66])]
+    ∧ oldPairedByPath wPaths (iterateEOld wSizes 3 wArchive) = false
+    ∧ iterate wArchive wPaths wSizes = [.ok (0, [65]), .ok (2, [66])] := by
   decide +kernel
 
-/-- an archive ordered differently from the header: both contents come back under the other file's metadata -/
-theorem foreign_reordered_witness :
-    iterate wArchiveReordered [1, 1] = [.ok [66], .ok [65]]
-    ∧ pairedByPath [[46, 47, 97], [46, 47, 98]] (iterateE [1, 1] 2 wArchiveReordered) = false := by
+/-- an archive ordered differently from the header: the OLD iterator handed both contents out under the
+other file's metadata; the repaired one gives "B" to `/b` (1) and "A" to `/a` (0) -/
+theorem old_position_pairing_reordered_witness :
+    (iterateEOld [1, 1] 2 wArchiveReordered).map (fun y => y.map (·.2)) = [.ok [66], .ok [65]]
+    ∧ oldPairedByPath [[47, 97], [47, 98]] (iterateEOld [1, 1] 2 wArchiveReordered) = false
+    ∧ iterate wArchiveReordered [[47, 97], [47, 98]] [1, 1] = [.ok (1, [66]), .ok (0, [65])] := by
+  decide +kernel
+
+/-- an entry that names no header file: the OLD iterator handed its content ("X") out as `/g`'s; the
+repaired one stops with an error item -/
+theorem old_position_pairing_unknown_witness :
+    (iterateEOld wSizes 3 wArchiveUnknown).map (fun y => y.map (·.2)) = [.ok [65], .ok [88], .ok [66]]
+    ∧ iterate wArchiveUnknown wPaths wSizes = [.ok (0, [65]), .err "no-such-file"] := by
   decide +kernel
 
 /-- a truncated archive: the entry announces 4 bytes, the stream ends after 2 — an error, no short file -/
 theorem truncated_archive_witness :
-    iterate ((writeEntry { name := [46, 47, 97], ino := 1, mode := 33188 } [65, 66, 67, 68]).dropLast.dropLast) [4]
+    iterate ((writeEntry { name := [46, 47, 97], ino := 1, mode := 33188 } [65, 66, 67, 68]).dropLast.dropLast) [[47, 97]] [4]
       = [.err "eof"] := by
   decide +kernel
 
@@ -305,7 +475,8 @@ theorem build_order (given : List FileIn) :
     have := foldl_insert_perm given [] (by simpa using hnd)
     simpa [buildFiles] using this
 
-/-- a strictly ascending list has no duplicate paths (so `builder_pairing` applies to `buildFiles _`) -/
+/-- a strictly ascending list has no duplicate paths (so, with `headerPaths_nodup`, `builder_pairing` and
+`files_of_build` apply to `buildFiles _`) -/
 theorem sorted_nodup {l : List FileIn} (h : SortedByPath l) : (l.map (·.path)).Nodup := by
   refine List.pairwise_map.mpr (h.imp ?_)
   intro a b hab heq
@@ -318,12 +489,29 @@ theorem sorted_nodup {l : List FileIn} (h : SortedByPath l) : (l.map (·.path)).
 example : EntryOK ({ name := [46, 47, 97], ino := 1, mode := 33188 }, [65]) :=
   ⟨by constructor <;> decide, by decide, by decide⟩
 example : FileIn.OK ⟨[46, 47, 97, 47, 98], 33188, [1, 2, 3, 4, 5]⟩ := by constructor <;> decide
-example : iterate (builderArchive 0 0 [⟨[46, 47, 97], 33188, [1, 2, 3]⟩, ⟨[46, 47, 98], 33261, []⟩]) [3, 0]
-    = [.ok [1, 2, 3], .ok []] := by decide +kernel
-example : iterate (builderArchiveLarge [⟨[46, 47, 97], 33188, [1, 2, 3]⟩, ⟨[46, 47, 98], 33261, [9]⟩]) [3, 1]
-    = [.ok [1, 2, 3], .ok [9]] := by decide +kernel
+example : iterate (builderArchive 0 0 [⟨[46, 47, 97], 33188, [1, 2, 3]⟩, ⟨[46, 47, 98], 33261, []⟩]) [[47, 97], [47, 98]] [3, 0]
+    = [.ok (0, [1, 2, 3]), .ok (1, [])] := by decide +kernel
+example : iterate (builderArchiveLarge [⟨[46, 47, 97], 33188, [1, 2, 3]⟩, ⟨[46, 47, 98], 33261, [9]⟩]) [[47, 97], [47, 98]] [3, 1]
+    = [.ok (0, [1, 2, 3]), .ok (1, [9])] := by decide +kernel
 example : (builderArchive 0 0 [⟨[46, 47, 97], 33188, [1, 2, 3]⟩]).length = 116 + 4 + 124 := by decide +kernel
 example : wPaths.Nodup := by decide
 example : (buildFiles [⟨[46, 47, 98], 1, []⟩, ⟨[46, 47, 97], 2, [7]⟩, ⟨[46, 47, 98], 3, [9]⟩]).map (·.mode) = [2, 1] := by decide
+example : (headerPaths [⟨[46, 47, 97], 33188, [1]⟩, ⟨[46, 47, 98], 33188, []⟩]).Nodup ∧ FileIn.Rooted ⟨[46, 47, 97], 33188, [1]⟩ :=
+  ⟨by decide, ⟨[97], rfl⟩⟩
+/-- `pairing_by_name` is not vacuous: a reordered archive and a ghost-omitting archive on which the
+iterator yields `ok` items, each under the index of the file its entry names -/
+example : pairedByPath [[47, 97], [47, 98]] (iterateE [[47, 97], [47, 98]] [1, 1] 2 wArchiveReordered) = true
+    ∧ (iterateE [[47, 97], [47, 98]] [1, 1] 2 wArchiveReordered).length = 2 := by decide +kernel
+example : pairedByPath wPaths (iterateE wPaths wSizes 3 wArchive) = true
+    ∧ (iterateE wPaths wSizes 3 wArchive).map (fun y => y.map (·.1)) = [.ok 0, .ok 2] := by decide +kernel
+/-- stripped entries out of order (index 1 before index 0): paired by the carried index -/
+example : iterate (strippedHeader 1 ++ ([66, 66] ++ (pad 2 ++ (strippedHeader 0 ++ ([65] ++ (pad 1 ++ trailer))))))
+    [[47, 97], [47, 98]] [1, 2] = [.ok (1, [66, 66]), .ok (0, [65])] := by decide +kernel
+/-- source-package style names (no `./`), one of them starting with a dot -/
+example : iterate (archiveOf [({ name := [46, 104] }, [1]), ({ name := [120, 46, 115] }, [2, 3])]) [[120, 46, 115], [46, 104]] [2, 1]
+    = [.ok (1, [1]), .ok (0, [2, 3])] := by decide +kernel
+example : Designates wPaths (.stripped 2) 2 ∧ ¬ Designates wPaths (.stripped 3) 3 := by
+  simp [Designates, wPaths]
+example : namePath [46, 47, 97] = [47, 97] ∧ namePath [46, 97] = [46, 97] ∧ namePath [97] = [97] ∧ namePath [46] = [46] := by decide
 
 end RpmVerif.C07
